@@ -62,10 +62,15 @@ static __declspec(thread) uint32_t XOR128_SEED = 0;
 static __thread uint32_t XOR128_SEED = 0;
 #endif
 
+/* state used instead of 0, which is reserved for "never seeded" */
+#define XOR128_NONZERO 0x9E3779B9u
+
 void srand_(uint32_t seed)
 {
   LIBSCI_VERIF_RNG(0, (unsigned int)seed, 0);
   XOR128_SEED = generate_seed(seed);
+  if(XOR128_SEED == 0) /* 0 means "never seeded": a seeded stream must not look like that */
+    XOR128_SEED = XOR128_NONZERO;
   LIBSCI_VERIF_RNG(0, (unsigned int)seed, 1);
 }
 
@@ -80,6 +85,8 @@ double rand_()
   state.x[2] = XOR128_SEED ^ 0x3a8e9f2baf7e592bULL;
   state.x[3] = XOR128_SEED ^ 0x0b243e4b4b2aa8d3ULL;
   XOR128_SEED = generate_seed(XOR128_SEED);
+  if(XOR128_SEED == 0)
+    XOR128_SEED = XOR128_NONZERO;
   LIBSCI_VERIF_RNG(1, 0, 1);
   return xorshift128(&state);
 }
@@ -95,6 +102,8 @@ int randInt(int low, int high)
   state.x[2] = XOR128_SEED ^ 0x3a8e9f2baf7e592bULL;
   state.x[3] = XOR128_SEED ^ 0x0b243e4b4b2aa8d3ULL;
   XOR128_SEED = generate_seed(XOR128_SEED);
+  if(XOR128_SEED == 0)
+    XOR128_SEED = XOR128_NONZERO;
   LIBSCI_VERIF_RNG(2, (unsigned int)high, 1);
   return (int) (xorshift128(&state) % ((high) - low) + low);
 }
@@ -113,6 +122,8 @@ double randDouble(double low, double high)
   state.x[2] = XOR128_SEED ^ 0x3a8e9f2baf7e592bULL;
   state.x[3] = XOR128_SEED ^ 0x0b243e4b4b2aa8d3ULL;
   XOR128_SEED = generate_seed(XOR128_SEED);
+  if(XOR128_SEED == 0)
+    XOR128_SEED = XOR128_NONZERO;
   LIBSCI_VERIF_RNG(3, 0, 1);
   double range = (high - low);
   double div = 4294967296.0 / range;
